@@ -294,6 +294,8 @@ class SqliteStorage(AbstractStorage):
             + "WHERE id = ? AND bucketrow = (SELECT b.rowid FROM buckets b WHERE b.id = ?)"
         )
         cursor = self.conn.execute(query, [event_id, bucket_id])
+        # Deletes are buffered writes as well, they need to be counted and eventually committed
+        self.conditional_commit(1)
         return cursor.rowcount == 1
 
     def replace(self, bucket_id, event_id, event) -> bool:
